@@ -323,11 +323,23 @@ fn line_info(out: &str, toks: &[Tok]) -> LineInfo {
 pub fn c05(x: &str, toks: &[GTok], out: &str, cfg: &Cfg, ctx: &mut Ctx) {
     let tx = r::scan(x);
     let to = r::scan(out);
-    if tx.len() != toks.len() + 1 || to.len() != tx.len() {
+    if to.len() != tx.len() {
         ctx.count("c05.skipped-token-mapping");
         return;
     }
-    let li = line_info(out, &to);
+    // comments and directives inserted by the transformers are not generator tokens: map the
+    // generator's tokens to the remaining ones by ordinal
+    let commentish = |t: &Tok| matches!(t.kind, Kind::Comment(_) | Kind::CompilerDirective | Kind::Conditional(_));
+    let keep: Vec<usize> = (0..tx.len()).filter(|&i| !commentish(&tx[i])).collect();
+    if keep.len() != toks.len() + 1 {
+        ctx.count("c05.skipped-token-mapping");
+        return;
+    }
+    let li_all = line_info(out, &to);
+    let li = LineInfo {
+        first_on_line: keep.iter().map(|&i| li_all.first_on_line[i]).collect(),
+        indent: keep.iter().map(|&i| li_all.indent[i].clone()).collect(),
+    };
     let unit = cfg.indent_unit();
     let case = || case_fmt("c05", x, cfg);
     let mut ostack: Vec<Option<String>> = vec![];
@@ -339,8 +351,18 @@ pub fn c05(x: &str, toks: &[GTok], out: &str, cfg: &Cfg, ctx: &mut Ctx) {
     let mut header_depth = 0u32;
     let mut anon_in_header = false;
     let mut raise_active = false;
+    // a comment (not an inline block comment) right after `class` / `interface` ... and before the
+    // ancestor list: the header is then not recognised (known finding)
+    let comment_in_type_header = (1..tx.len().saturating_sub(1)).any(|i| {
+        commentish(&tx[i])
+            && tx[i].kind != Kind::Comment(CommentKind::InlineBlock)
+            && matches!(tx[i - 1].text(x).to_ascii_lowercase().as_str(), "class" | "interface" | "dispinterface" | "object" | "record")
+            && tx[i + 1].text(x) == "("
+    });
     let fail = |ctx: &mut Ctx, sig: &str, detail: String, anon_in_header: bool| {
-        let sig = if anon_in_header {
+        let sig = if comment_in_type_header {
+            format!("{sig}:comment-between-class-keyword-and-ancestor-list")
+        } else if anon_in_header {
             format!("{sig}:anonymous-routine-inside-statement-header-or-raise")
         } else {
             sig.to_string()
